@@ -1592,6 +1592,11 @@ func (l *lexer) scanCmdSubst(r rune) bool {
 	case '`':
 		l.unread()
 		left := l.pos
+		if r == '$' && (len(l.aliases) != 0 || l.still) {
+			// inside the text of an alias positions stand still: the
+			// '$' is where the text stands, not one column before
+			left = ast.NewPos(left.Line(), left.Col()+1)
+		}
 		// nest
 		ll := &lexer{
 			name:     l.name,
@@ -1604,7 +1609,10 @@ func (l *lexer) scanCmdSubst(r rune) bool {
 			line:     l.line,
 			col:      l.col,
 		}
-		ll.mark(off)
+		if ll.mark(off); len(l.aliases) != 0 || l.still {
+			// inside the text of an alias positions stand still
+			ll.pos = l.pos
+		}
 		ll.last.Store(ll.pos)
 		go ll.run()
 		yyParse(ll)
@@ -1806,7 +1814,7 @@ func (l *lexer) emit(typ int) {
 }
 
 func (l *lexer) mark(off int) {
-	if len(l.aliases) == 0 {
+	if len(l.aliases) == 0 && !l.still {
 		l.pos = ast.NewPos(l.line, l.col+off)
 	}
 }
